@@ -779,6 +779,11 @@ pub fn child_main(args: &Args) -> ! {
         // obtained (vm.max_map_count reached, address space exhausted): the library may answer
         // with errors, never with unverified data
         hooks.set_failing_sites(if mode != Mode::C04 && i % 4 == 2 { vec!["mmap"] } else { vec![] });
+        // another case in eight meets a failing sector: one read of the file (seeded which one)
+        // fails with EIO, the next ones work again
+        if mode != Mode::C04 && i % 8 == 5 {
+            hooks.set_failing_window("file_read", (i / 8) % 48, 1 + (i / 8) % 2);
+        }
         let fault = &faults[i as usize];
         let mut files = pristine_bytes.clone();
         let fired = fault.apply(&mut files);
@@ -831,6 +836,7 @@ pub fn child_main(args: &Args) -> ! {
                 // the only structure set_location reads and re-signs)
                 let in_slot = mode == Mode::C05 && fault_hits_manifest_slot(fault, &spans);
                 let d = observe(&files, in_slot);
+                let env_faults = hooks.take_faults_fired();
                 let reference = if in_slot {
                     pristine_dump.clone()
                 } else {
@@ -842,7 +848,8 @@ pub fn child_main(args: &Args) -> ! {
                 let changed = d != reference;
                 json!({
                     "fired": fired,
-                    "mmap_refused": hooks.take_faults_fired().get("mmap").copied().unwrap_or(0),
+                    "mmap_refused": env_faults.get("mmap").copied().unwrap_or(0),
+                    "read_failed": env_faults.get("file_read").copied().unwrap_or(0),
                     "diffs": diffs.iter().take(6).collect::<Vec<_>>(),
                     "ndiffs": diffs.len(),
                     "errs": nerr,
@@ -1224,6 +1231,10 @@ pub fn parent_main(args: &Args, mode: Mode) -> ! {
             let refused = rec["payload"]["mmap_refused"].as_u64().unwrap_or(0);
             if refused > 0 {
                 ev.fired("syscall-failure:mmap-refused", refused);
+            }
+            let rf = rec["payload"]["read_failed"].as_u64().unwrap_or(0);
+            if rf > 0 {
+                ev.fired("syscall-failure:file-read-EIO", rf);
             }
             if fired {
                 ev.fired(&kind, 1);
